@@ -14,7 +14,8 @@ from . import build, proto, core, gen, translate, solvelib
 from .gen import q2s
 
 OBL = [("Qsx.Props.C10", t) for t in ["Qsx.Props.C10.scan_literal", "Qsx.Props.C10.scan_consumes_le",
-                                     "Qsx.Props.C10.scan_no_div_zero"]]
+                                     "Qsx.Props.C10.scan_no_div_zero", "Qsx.Props.C10.scan_exponent_guard",
+                                     "Qsx.Props.C10.exponent_below_100000_ok"]]
 
 STOP = [" ", "\n", "x", "\t", ")", "<", ">", "=", ":", "a", "_", ""]
 
@@ -37,10 +38,18 @@ def gen_literal(rng, big=False):
         fp = gen_digits(rng, big) if (rng.chance(0.9) or not ip) else ""
     ex = None
     if rng.chance(0.35):
-        ex = (rng.choice("eE"), rng.choice(["", "+", "-"]), "".join(str(rng.below(10)) for _ in range(rng.rint(0, 3))))
+        nd = rng.wchoice([(rng.rint(0, 3), 90), (4, 4), (5, 2), (rng.rint(6, 9), 4)])
+        ex = (rng.choice("eE"), rng.choice(["", "+", "-"]), ("0" * rng.rint(0, 3) if rng.chance(0.1) else "") + "".join(str(rng.below(10)) for _ in range(nd)))
     text = sg + ip + ("." + fp if fp is not None else "") + (ex[0] + ex[1] + ex[2] if ex else "")
     mant = F(int(ip or "0") * 10 ** len(fp or "") + int(fp or "0"), 10 ** len(fp or ""))
     if ex:
+        # the exponent guard (fix d278e6f, modelled): a further digit arriving when the exponent read so far exceeds 9999
+        # makes the scanner give up - nothing read
+        acc = 0
+        for ch in ex[2]:
+            if acc > 9999:
+                return text, None
+            acc = 10 * acc + int(ch)
         e = int(ex[2] or "0")
         mant = mant / 10 ** e if ex[1] == "-" else mant * 10 ** e
     return text, (-mant if sg == "-" else mant)
@@ -64,34 +73,22 @@ def run(pid, tier, seed):
     for _ in range(n_lit):
         t, v = gen_literal(rng, big=not quick or rng.chance(0.05))
         stop = rng.choice(STOP)
-        cases.append(("literal", t + stop + rng.choice(["", "12", " x"] if stop else [""]), (len(t), v)))
+        cases.append(("literal", t + stop + rng.choice(["", "12", " x"] if stop else [""]), (len(t), v) if v is not None else (0, None)))
     for _ in range(n_lit // 3):
         (t1, v1), (t2, v2) = gen_literal(rng), gen_literal(rng)
         stop = rng.choice(STOP)
-        cases.append(("fraction", t1 + "/" + t2 + stop, (len(t1) + 1 + len(t2), v1 / v2) if v2 != 0 else (0, None)))
+        cases.append(("fraction", t1 + "/" + t2 + stop, (0, None) if (v1 is None or v2 is None or v2 == 0) else (len(t1) + 1 + len(t2), v1 / v2)))
     alphabet = "0123456789.eE+-/ x"
     import re
     for _ in range(n_lit // 2):
         t = "".join(rng.choice(alphabet) for _ in range(rng.rint(0, 12)))
-        # exponents are limited to 4 digits (digits after an exponent marker, a later '.' included, all join the exponent)
-        if any(sum(ch.isdigit() for ch in part) > 4 for seg in t.split("/") for part in re.split("[eE]", seg)[1:]):
-            continue
         cases.append(("random", t, None))
     for t in ["", "1/0", "1/", "/", "/5", "--1", "1e", "1e-", "1e5.3", ".", "-.", "+", "e5", "1.2.3", "1e5e3", "1/2/3", "0/0", "-0", "1//2",
               "1/-0.0e5", "1 /2", "5e+", ".e1", "1e+5-3", "-1/-2", "00012", "1/0.000"]:
         cases.append(("corner", t, None))
-    # the overflow guard of the scanner (since fix d278e6f): an exponent of more than five digits is "not a number".  This is
-    # outside the Lean model (whose exponent is an unbounded Nat); the expectation is stated here and only the code is asked.
-    guard_cases = ["1e100000", "3/2e-123456", "1.5E+9999999999", "-2e999999/3", "1/1e100000"]
-    gtr = proto.run_harness(exe, ["scan " + hx(t) for t in guard_cases], timeout=120)
-    if gtr.crashed:
-        rep.violation("the scanner crashes on an over-long exponent: " + gtr.crashed[-300:], {"texts": guard_cases, "stderr": gtr.stderr[-1500:]}, signature={"symptom": "crash", "kind": "exp-guard"})
-    else:
-        for t, (op, blk) in zip(guard_cases, gtr):
-            ev.stat("scan:exp-guard")
-            if proto.get(blk, "n") != ["0"] or proto.get(blk, "val") != ["none"]:
-                rep.violation("an exponent of more than five digits is accepted as a number: %r -> n=%s" % (t, proto.get(blk, "n")), {"text": t, "c": [proto.get(blk, "n"), proto.get(blk, "val")]},
-                              signature={"symptom": "exp-guard"})
+    # the overflow guard of the scanner (fix d278e6f) is part of the model (St.fail, theorem scan_exponent_guard)
+    for t in ["1e100000", "3/2e-123456", "1.5E+9999999999", "-2e999999/3", "1/1e100000", "7e00000000001", "7e000012x", "2e99999", "1e-99999", "5e100000x", "1e10000", "1e9999/3e10001"]:
+        cases.append(("exp-guard", t, None))
     batches = core.chunks(cases, build.NCPU)
     trs = core.parallel_harness(exe, [["scan " + hx(t) for _, t, _ in b] for b in batches], timeout=900)
     model = solvelib.Model(pinf, ninf)
@@ -112,15 +109,15 @@ def run(pid, tier, seed):
         ev.stat("scan-result:" + ("none" if mv == ["none"] else "value"))
         if (cn, cv) != (mn, mv):
             found = False
-            if exp is not None and exp[1] is not None:
-                found = (cn, cv) != ([str(exp[0])], [q2s(exp[1])])
+            if exp is not None:
+                found = (cn, cv) != ([str(exp[0])], [q2s(exp[1])] if exp[1] is not None else ["none"])
             rep.violation("scanner disagrees with its model on %r: C=(%s,%s) model=(%s,%s)" % (t[:80], cn, (cv or ["?"])[0][:60], mn, (mv or ["?"])[0][:60]),
-                          {"text": t, "c": [cn, cv], "model": [mn, mv], "expected": [exp[0], q2s(exp[1])] if exp and exp[1] is not None else None},
+                          {"text": t, "c": [cn, cv], "model": [mn, mv], "expected": [exp[0], q2s(exp[1]) if exp[1] is not None else "none"] if exp else None},
                           signature={"symptom": "scan-disagree", "kind": kind}, found_input=found)
-        elif exp is not None and exp[1] is not None and (mn, mv) != ([str(exp[0])], [q2s(exp[1])]):
+        elif exp is not None and (mn, mv) != ([str(exp[0])], [q2s(exp[1])] if exp[1] is not None else ["none"]):
             # both agree but differ from the independently computed denotation
             rep.violation("scanner and model agree but the literal %r does not denote that value" % t[:80],
-                          {"text": t, "got": [mn, mv], "expected": [exp[0], q2s(exp[1])]},
+                          {"text": t, "got": [mn, mv], "expected": [exp[0], q2s(exp[1]) if exp[1] is not None else "none"]},
                           signature={"symptom": "scan-denotation", "kind": kind})
         if len(ev.cov["samples"]) < 5 and kind != "random":
             ev.sample({"text": t[:120], "consumed": (cn or ["?"])[0], "value": (cv or ["?"])[0][:120]})
@@ -146,7 +143,7 @@ def run(pid, tier, seed):
                       "fractions lit/lit, random strings over the scanner alphabet and a fixed corner list, each sent to the exported "
                       "mpq_EGlpNumReadStrXc and to the Lean state machine (consumed count and exact value compared) and, for grammar "
                       "literals, to an independent python denotation; distinct = distinct texts; non-trivial = non-empty text.")
-    ev.assumptions += ["l_exp is an int in C and unbounded in the model: exponents are limited to 4 digits as the property states",
+    ev.assumptions += ["l_exp is an int in C and a Nat in the model; the modelled guard keeps it below 100000 on both sides",
                        "token-level reader semantics (omitted coefficient = 1, repeated terms add up, keywords, default bounds) are tied by the file-level stream, not proved"]
     code = rep.finish()
     ev.write()
